@@ -14,7 +14,7 @@ pub struct PassKey<'a>(Option<Cow<'a, str>>);
 impl<'a> PassKey<'a> {
     /// Create a scoped reference to the passkey
     pub fn as_ref(&self) -> PassKey<'_> {
-        PassKey(Some(Cow::Borrowed(&**self)))
+        PassKey(self.0.as_ref().map(|s| Cow::Borrowed(s.as_ref())))
     }
 
     /// Create an empty passkey
